@@ -17,7 +17,7 @@ RULE = ('pairs/triples of Capacities over all fields discovered from a fresh Cap
         'has a non-zero field')
 REQUIRED = ['mon:add', 'mon:sub', 'mon:lt', 'mon:gt', 'mon:eq', 'mon:negative_fields', 'mon:positive_fields',
             'law:add-sub-inverse', 'law:commutative', 'law:free-plus-allocated', 'law:print-negative',
-            'law:lt-iff-no-negative', 'law:gt-mirror', 'law:eq-reflexive', 'law:eq-symmetric', 'law:compare-with-negative-operand', 'negative-operand-compared']
+            'law:lt-iff-no-negative', 'law:gt-mirror', 'law:eq-reflexive', 'law:eq-symmetric', 'law:compare-with-negative-operand', 'negative-operand-compared', 'law:arithmetic-with-negative-operand']
 ASSUMPTIONS = ['field values are ints >= 0 set through the public constructor; a field set to None (a constructor '
                'artefact that to_json drops) is outside the claimed domain',
                'held on the executions observed, not a proof']
@@ -258,6 +258,18 @@ def one_case(ctx, a, b, c):
                 break
             if min(Y.values()) < 0:
                 ctx.count('negative-operand-compared')
+        # arithmetic on operands that already carry negative fields (a difference is a legal operand):
+        # still field by field, still invertible, never an error
+        ctx.count('law:arithmetic-with-negative-operand')
+        r = a - b
+        R = dd(r)
+        s3 = r + c
+        if dd(s3) != {f: R[f] + C[f] for f in F} or dd(c + r) != dd(s3):
+            ctx.violation('C15/add-with-negative-operand', 'adding works field by field also when an operand has negative fields',
+                          dict(w, r=R, got=dd(s3)))
+        elif dd(s3 - c) != R or dd((r - c) + c) != R:
+            ctx.violation('C15/add-sub-inverse-with-negative-operand', '(r+c)-c == r for an operand r with negative fields', dict(w, r=R))
+        str(s3), repr(r - c)
         # operands untouched by everything above
         if dd(a) != A or dd(b) != B or dd(c) != C:
             ctx.violation('C15/operand-mutated', 'operands are never modified', dict(w, a_now=dd(a), b_now=dd(b)))
